@@ -72,7 +72,7 @@ func (h history) String() string {
 }
 
 var editKinds = []string{"edit-src", "add-src", "del-src", "add-nongo", "edit-generated", "del-generated", "make-unhashable", "repair-unhashable"}
-var sumKinds = []string{"del-sum", "sum-garbage", "sum-truncate", "sum-swap", "sum-drop-entry", "sum-wrong-hash", "sum-extra-fields"}
+var sumKinds = []string{"del-sum", "sum-garbage", "sum-truncate", "sum-swap", "sum-drop-entry", "sum-wrong-hash", "sum-extra-fields", "sum-rename-entry", "sum-rename-entry"}
 var runKinds = []string{"run-all", "run-all-force", "run-fail", "run-subset", "run-nonall"}
 
 func pkgDirs(root bool) []string {
@@ -276,7 +276,7 @@ func (wd *world) apply(o op) {
 		if b, err := os.ReadFile(filepath.Join(wd.m.Root, "gengo.sum")); err == nil && len(b) > 10 {
 			_ = os.WriteFile(filepath.Join(wd.m.Root, "gengo.sum"), b[:len(b)/2], 0o644)
 		}
-	case "sum-swap", "sum-drop-entry", "sum-wrong-hash", "sum-extra-fields":
+	case "sum-swap", "sum-drop-entry", "sum-wrong-hash", "sum-extra-fields", "sum-rename-entry":
 		sf := filepath.Join(wd.m.Root, "gengo.sum")
 		b, err := os.ReadFile(sf)
 		if err != nil {
@@ -301,6 +301,13 @@ func (wd *world) apply(o op) {
 			}
 		case "sum-extra-fields":
 			lines[0] = lines[0] + " trailing junk"
+		case "sum-rename-entry":
+			// the entry of one package now stands under another path (a moved / copied directory, a damaged path):
+			// its hash is still in the file, but not FOR that package
+			k := wd.salt % len(lines)
+			if a := strings.Fields(lines[k]); len(a) == 2 {
+				lines[k] = a[0] + "-moved " + a[1]
+			}
 		}
 		_ = os.WriteFile(sf, []byte(strings.Join(lines, "\n")+"\n"), 0o644)
 	}
